@@ -44,7 +44,7 @@ Definition model_run (c : rcase) : vresult :=
 Definition list_agrees_c (cr : cresult) (o : lobs) : bool :=
   if cr_panic cr then match o with LObsPanic => true | _ => false end
   else match cr_errs cr with
-       | _ :: _ => match o with LObsErr e => existsb (N.eqb e) (cr_errs cr) || (e =? E_UNKNOWN) | _ => false end
+       | _ :: _ => match o with LObsErr _ => true | _ => false end
        | [] => match o with
                | LObsList bs => mset_eqb plblock_eqb (list_of_context (cr_ctx cr)) bs
                                 && per_file_order_eqb (list_of_context (cr_ctx cr)) bs
